@@ -1096,3 +1096,14 @@ mod tests {
         quickcheck::quickcheck(prop as fn(_, _))
     }
 }
+
+/// Verification hooks (only with `--cfg libp2p_verif`).
+#[cfg(libp2p_verif)]
+impl RequestId {
+    /// A request id for handler events constructed by a verification driver.
+    pub fn verif_new(n: u64) -> Self {
+        RequestId {
+            connec_unique_id: UniqueConnecId(n),
+        }
+    }
+}
